@@ -96,6 +96,7 @@ def _is_stub(f: FuncInfo) -> bool:
 class Executor:
     MAX_LOOP_STATES = 48
     MAX_INLINE = 6
+    CONTAINED = frozenset({'tatsu.exceptions.OptionSucceeded'})
 
     def __init__(self, project: Project, ct: ClassTable, resolver: Resolver, sem: Semantics,
                  raises: 'RaiseSummary | None' = None):
@@ -125,6 +126,10 @@ class Executor:
         """'yes' | 'maybe' | 'no'"""
         if handler_cls in self.ct.mro(exc.bound):
             return 'yes'
+        if handler_cls in self.CONTAINED:
+            # control exception raised only by its owner and contained lexically (rule C01.R1c):
+            # an exception of unknown origin is never that one
+            return 'no'
         if exc.bound in self.ct.mro(handler_cls):
             return 'maybe'
         return 'no'
